@@ -291,10 +291,7 @@ def gen_c13(g):
                 continue
             if mn not in ("lds", "sts") and fcore == "reduced":
                 continue
-            # Tiny1x cores: whether a displacement form written with the ld/st mnemonic counts as
-            # ldd/std is not something the flag documentation settles -- not generated.
-            if "Tiny1x" in d["flags"] and mn in ("ld", "st") and any(o["k"] == "ix" and o["mode"] == "disp" for o in ops):
-                continue
+            # (Tiny1x cores lack LDD/STD: a displacement operand is that instruction, also when written with ld/st -- Devices!Unavailable)
             # reduced core: the displacement encodings (10q0 qq..) overlap the one-word lds/sts there; the
             # flag documentation ("no ADIW, SBIW, one word LDS/STS") does not say whether ldd/std exist -- not generated.
             if "Avr8l" in d["flags"] and (mn in ("ldd", "std") or any(o["k"] == "ix" and o["mode"] == "disp" for o in ops)):
